@@ -9,7 +9,7 @@ ASSUMPTIONS = base.ASSUMPTIONS + ['quantifier: scalar operands / scalar Python i
 RULE = ('AR lines (add/sub/mul, optimal sizing, raw method, operator/function routes) with operand words 2..70, n_frac 0..n_word, any signedness mix: codes at extremes, near extremes and random with long runs of zeros; format pairs concentrated on the '
         'selection thresholds (aligned width and result n_frac in {52,53,54,62,63,64,65}); BI lines: Python integers +-2^k, +-2^k+-1 and random up to 2^1000 into formats of 1..52 bits with 0<=n_frac<=n_word+3 by constructor, call, set_val and indexed assignment. '
         'non-trivial = the exact aligned result (or the scaled integer) needs more than 53 bits')
-TECHNIQUE = 'Lean 4 theorems (C07 exactness is unbounded; carrier model: the selected machine path computes the exact integer whenever the selection rule holds; big-int store = quantize) + differential correspondence at the 53/63/64-bit thresholds'
+TECHNIQUE = 'Lean 4 theorems (C07 exactness is unbounded; carrier model: the selected machine path computes the exact integer whenever the selection rule holds; big-int store = quantize) + differential correspondence at the 53/63/64-bit thresholds + source tie: the growth/sizing/carrier rules of fxpmath/functions.py are translated to Lean on every run (harness/srcgen.py) and the tie theorems of lean/FxpVerif/Gen/Tie.lean re-checked against the translation'
 LEVEL_TEXT = ('The exactness theorems of C07 and the store theorem of C01 have no bound on word length or magnitude, so the model has no 64-bit boundary. What can break at the boundary is the choice of machine carrier; Model/Carrier.lean models int64 / uint64 / float64 / Python-int paths and '
               'the selection rule, and it is proved that whenever the rule selects a machine path every intermediate fits it (so the machine result equals the exact one). The implementation is driven across the thresholds with extreme and structured codes and with integers up to 2^1000.')
 LEVEL_NOTE = 'Trusted: Lean kernel + standard axioms; the carrier model is hand-written from functions.py/objects.py and tied to the code by correspondence at the thresholds; NumPy promotion rules of this sandbox\'s NumPy.'
